@@ -4,6 +4,7 @@ import (
 	"bytes"
 	"fmt"
 	"strings"
+	texttemplate "text/template"
 )
 
 // Each oracle is a pure function of the case: it executes it (and whatever
@@ -78,6 +79,51 @@ func checkTotal(cr *checkResult, prop string) {
 			}
 			if r.FailedAt != 0 {
 				cr.add(prop, "fault-swallowed", r.OpID, "fault-swallowed:write", "%s returned nil although Write #%d failed", r.Kind, r.FailedAt)
+			}
+		}
+	}
+	// Every Parse entry point hands its text to text/template's parser first: a
+	// text (or the bytes a file read delivered) that the parser rejects must
+	// make the call fail.
+	if prop == "C08" {
+		c := cr.tw.c
+		left, right := "", ""
+		customDelims := false
+		for i := range c.Defs {
+			if c.Defs[i].Kind == opDelims {
+				// which delimiters a later receiver has depends on when it was
+				// created (New on an existing name, function forms): not tracked
+				customDelims = true
+			}
+		}
+		for _, r := range o.all() {
+			if customDelims {
+				break
+			}
+			if !r.Done || r.Aborted != "" || r.Panic != "" || r.Err != "" || r.Skipped != "" || !isParseKind(r.Kind) {
+				continue
+			}
+			op := c.opByID(r.OpID)
+			var texts []string
+			switch r.Kind {
+			case opParse:
+				texts = append(texts, op.Text)
+			case opParseConst:
+				if op.Const >= 0 && op.Const < len(constTexts) {
+					texts = append(texts, constTexts[op.Const])
+				}
+			default:
+				for _, rd := range r.Reads {
+					if !rd.Err {
+						texts = append(texts, string(rd.Data))
+					}
+				}
+			}
+			for _, t := range texts {
+				if perr := refParse(t, left, right); perr != nil {
+					cr.add(prop, "parse-error-swallowed", r.OpID, "parse-error-swallowed:"+r.Kind, "%s returned nil for a text that text/template's parser rejects (%v): %q", r.Kind, perr, clip(t))
+					break
+				}
 			}
 		}
 	}
@@ -283,4 +329,12 @@ func compareWithTwin(cr *checkResult, prop, class string, r, tr *Result, what st
 	if !bytes.Equal(r.Out, tr.Out) {
 		cr.add(prop, class, r.OpID, class+":bytes-differ", "%s of %q wrote %q here but %q on %s", r.Kind, r.Target, clip(string(r.Out)), clip(string(tr.Out)), what)
 	}
+}
+
+// refParse parses text with a plain text/template set that knows the harness's
+// function names (it is at least as permissive as any set of the harness).
+func refParse(text, left, right string) error {
+	stub := func(...interface{}) (string, error) { return "", nil }
+	_, err := texttemplate.New("ref").Delims(left, right).Funcs(texttemplate.FuncMap{"probe": stub, "val": stub}).Parse(text)
+	return err
 }
